@@ -157,6 +157,22 @@ func checkRouter(h *History) {
 	checkC17mtls(h, vs)
 	checkC18router(h)
 	checkC01(h, vs)
+	checkWirePoison(h)
+}
+
+// checkWirePoison: no response a client received carries the patterns that
+// the pool facades write into released buffers and objects (C20).
+func checkWirePoison(h *History) {
+	for _, o := range h.Ops {
+		for _, r := range o.Resps {
+			if n := peers.PoisonRun(r.B); n >= 8 {
+				h.S.Fail("C20", "released-memory-on-the-wire", "op %d: the response contains %d consecutive bytes of the release poison pattern: %x", o.Op.Idx, n, trunc(r.B, 64))
+			}
+			if peers.PoisonObject(r.B) {
+				h.S.Fail("C20", "released-object-on-the-wire", "op %d: the response was built from a released pooled object (poison values): %x", o.Op.Idx, trunc(r.B, 64))
+			}
+		}
+	}
 }
 
 func startFaultProperty(kind string) string {
@@ -447,6 +463,12 @@ func checkContent(h *History, vs []*opView) {
 			if v.q != nil && op.Raw == nil {
 				_, err := refdns.Parse(d.raw)
 				h.S.Fail("C09", "malformed", "%s: response does not decode cleanly (%v): %d bytes %x", name, err, len(d.raw), trunc(d.raw, 64))
+				// every response is the proxy's own encoding of a message it
+				// holds: one that an independent decoder rejects is also a codec
+				// failure, unless it was cut to a size limit (C09's business)
+				if len(d.raw) >= 12 && d.raw[2]&0x02 == 0 {
+					h.S.Fail("C02", "encoded-undecodable", "%s: the proxy's encoding does not decode (%v): %d bytes %x", name, err, len(d.raw), trunc(d.raw, 64))
+				}
 			}
 			continue
 		}
